@@ -441,6 +441,74 @@ func main() {
 		}
 	})
 
+	// multi-member geometries: the cover of a multi-polygon / collection is the union of its members' covers,
+	// whether the members are disjoint, touching, overlapping or nested
+	cat := [][]int{{0, 4, 24, 20}, {6, 8, 18, 16}, {0, 2, 22, 20}, {2, 4, 24, 22}, {1, 3, 13, 11}, {0, 4, 12}, {20, 12, 24}, {5, 9, 19, 15}, {7, 8, 13, 12}}
+	r.Explore("multi-members", fmt.Sprintf("regions x 4 zooms (focus .. focus+3) x every ordered pair (thorough: and triple) of %d catalogue polygons on the lattice (disjoint, touching, overlapping, nested, one with a hole holding another member): MultiPolygon, Geometry and Collection covers are the union of the member covers", len(cat)+1), mc.Opts{MaxDev: -1, Split: 3}, func(c *mc.Ctx) {
+		ri := c.Choose(len(regions))
+		rg := regions[ri]
+		z := maptile.Zoom(rg.zf + c.Choose(4))
+		L := lat[ri]
+		mkPoly := func(k int) orb.Polygon {
+			ring := func(idx []int) orb.Ring {
+				var o orb.Ring
+				for _, i := range idx {
+					o = append(o, L[i])
+				}
+				return append(o, o[0])
+			}
+			if k == len(cat) {
+				return orb.Polygon{ring(cat[0]), ring(cat[1])} // the big square with the inner square as a hole
+			}
+			return orb.Polygon{ring(cat[k])}
+		}
+		n := 2 + c.Choose(ev.Pick(r, 1, 2))
+		var mp orb.MultiPolygon
+		var col, col2 orb.Collection
+		want := maptile.Set{}
+		for i := 0; i < n; i++ {
+			p := mkPoly(c.Choose(len(cat) + 1))
+			s, err := tilecover.Polygon(p, z)
+			if err != nil {
+				c.Failf("multi-members", "Polygon(%v,%d) fails: %v", p, z, err)
+				return
+			}
+			want.Merge(s)
+			mp = append(mp, p)
+			col = append(col, p)
+			if i == 0 {
+				col2 = append(col2, orb.MultiPolygon{p})
+			} else {
+				col2 = append(col2, orb.Collection{p})
+			}
+		}
+		same := func(a maptile.Set) bool {
+			n := 0
+			for t, v := range a {
+				if v {
+					n++
+					if !want[t] {
+						return false
+					}
+				}
+			}
+			return n == len(want)
+		}
+		got, err := tilecover.MultiPolygon(mp, z)
+		if err != nil || !same(got) {
+			c.Failf("multi-members", "MultiPolygon cover (%d tiles, err %v) is not the union of the member covers (%d tiles) | region=%s zoom=%d members=%v", len(got), err, len(want), rg.name, z, mp)
+			return
+		}
+		for gi, g := range []orb.Geometry{mp, col, col2, orb.Collection{mp}} {
+			got, err := tilecover.Geometry(g, z)
+			if err != nil || !same(got) {
+				c.Failf("multi-members", "Geometry cover of form %d (%d tiles, err %v) is not the union of the member covers (%d tiles) | region=%s zoom=%d members=%v", gi, len(got), err, len(want), rg.name, z, mp)
+				return
+			}
+		}
+		c.NonTrivial()
+	})
+
 	// ---- merges: model checking over (subset, target zoom, iteration orders) ----
 	type mloc struct {
 		c      *mc.Ctx
